@@ -8,7 +8,7 @@ from contracts import lemmas as L
 
 PROVED = [G.overlap_indices, G.fc_in, G.fully_contained_core, G.fc_sanity, G.fully_contained_in,
           G.touching_windows_core, G.touching_windows, G.find_break_i, G.from_break, G.diff,
-          G.check_sorted, G.check_nonneg, G.check_no_overlap, SE.stable_argsort]
+          G.check_sorted, G.check_nonneg, G.check_no_overlap, SE.stable_argsort, G.get_empty_container_ids]
 
 PROPERTY = Property(
     "C17", "proof",
@@ -21,14 +21,14 @@ PROPERTY = Property(
        for c in PROVED if c.harness is not None],
     trusted=["pyvc VC generator and value model", "z3 5.1.0 / cvc5 1.4.0",
              "library model: np.argsort(kind='mergesort') is a stable sorting permutation",
-             "library models of len/range/enumerate/zip/min/max/np.zeros/np.ones/np.all/slicing",
+             "library models of len/range/enumerate/zip/min/max/np.zeros/np.ones/np.all/np.arange/slicing/slice store of a vector",
              "induction principle behind the two lemmas (base and step are discharged)"],
     assumptions=["A1 integers are mathematical (no int64/int32 wrap-around; result arrays are int32/int64 in the code)",
                  "A2 numba-compiled code behaves like the Python source on the verified subset (each stand-in input is "
                  "run through both the compiled dispatcher and .py_func)",
                  "strax.endtime(x) is modelled as a per-row value 'endtime' (field, or time+length*dt)",
-                 "split_by_containment, abs_time_to_prev_next_interval and sort_by_time are NOT proved: bounded stand-ins only"],
+                 "split_by_containment, abs_time_to_prev_next_interval and sort_by_time are NOT proved: bounded stand-ins only; of split_by_containment the helper _get_empty_container_ids (which containers get an empty entry) is proved, the composition (boolean mask, np.where / np.diff / np.unique, numba typed list inserts) is not"],
     explanation="interval primitives against their set-theoretic definitions: containment, touching windows, overlap "
-                "indices, gaps, break finding and the sortedness checks are proved for all array lengths; three "
+                "indices, gaps, break finding, the sortedness checks and the empty-container ids of split_by_containment are proved for all array lengths; three "
                 "functions outside the subset are covered by labelled bounded stand-ins",
 )
